@@ -2624,8 +2624,13 @@ func (c *Conn) classifyReadLoopError(err error) readLoopErrorAction {
 	}
 
 	switch {
-	case errors.Is(err, recordlayer.ErrInvalidPacketLength):
+	case errors.Is(err, recordlayer.ErrInvalidPacketLength),
+		errors.Is(err, dtlserrors.ErrInvalidContentType),
+		errors.Is(err, dtlserrors.ErrInvalidCiphertextHeader),
+		errors.Is(err, dtlserrors.ErrInvalidUnifiedHeaderFormat):
 		// Decode error must be silently discarded [RFC6347 Section-4.1.2.7].
+		// A datagram that cannot be split into records (including one that only
+		// looks like a DTLS 1.3 unified header) is such an error.
 		return readLoopContinue
 	case errors.Is(err, context.Canceled) && !c.isConnectionClosed():
 		return readLoopCloseAndStop
